@@ -18,7 +18,7 @@ REQUIREMENTS
 2. `cargo test --lib --offline` in the worktree must give exactly the same result with and without your change: 84 passed, 3 failed (these three fail on the pristine tree too, ignore them: checker::explorer::test::can_next, checker::explorer::test::smoke_test_states, checker::test_report::report_includes_property_names_and_paths). Do not edit tests.
 3. The crate must also still build with the instrumentation flag on: `RUSTFLAGS="--cfg getong_stateright_verif" cargo check --offline --lib`. Do NOT edit, move or delete anything inside `#[cfg(getong_stateright_verif)]` items/blocks or src/verif.rs (they are observation hooks; leave them where they are and keep them firing at the same points as far as your change allows).
 4. Demonstration: a single integration-test file `demo_test.rs` (it will be copied to `tests/demo.rs` and run with `cargo test --offline --test demo`) that PASSES on the pristine tree and FAILS with your change applied. It must finish by itself within ~60 s in both cases (guard anything that could hang with a watchdog thread + timeout and fail instead of hanging). It may only use the crate's public API and dev-dependencies already in Cargo.toml. If the change is a race, make the demo robust (repeat rounds so it fails with very high probability when patched and never when clean).
-5. Environment: no network. Always `export CARGO_NET_OFFLINE=true CARGO_TARGET_DIR={wt}-target` so that build output stays out of the worktree. The machine is shared: use `-j 4` for cargo.
+5. Never use `git stash` (the stash is shared by all worktrees of the repository and other people work in sibling worktrees): to compare clean vs patched, save `git diff > file` and use `git apply -R` / `git apply`. Environment: no network. Always `export CARGO_NET_OFFLINE=true CARGO_TARGET_DIR={wt}-target` so that build output stays out of the worktree. The machine is shared: use `-j 4` for cargo.
 6. Deliver into {wt}-out/1/ (and, if you find a second, clearly different change for the same property, {wt}-out/2/):
    - patch.diff   : `git diff` of your change against HEAD (only files under src/; must apply cleanly with `git apply` on the pristine tree)
    - demo_test.rs : the demonstration
